@@ -235,9 +235,10 @@ def extra_units():
         out.append(v)
     # a molecule that is ejected while a fragment can still join it splits a true molecule: C07's no-late-join contract
     from contracts import c07
-    v = copy.copy(c07.can_be_yielded)
-    v.prop = PROP
-    out.append(v)
+    for u in (c07.can_be_yielded, c07.add_span):
+        v = copy.copy(u)
+        v.prop = PROP
+        out.append(v)
     return out
 
 
@@ -254,7 +255,11 @@ def assign_block(f):
         lambda st: isinstance(st, ast.If) and ast.unparse(st.test) == 'not added')
 
 
-def assign_setup(eng):
+def assign_setup_for(exact):
+    return lambda eng: assign_setup(eng, exact)
+
+
+def assign_setup(eng, exact=True):
     g = eng.ghost
     g.clear()
     g.update({'joined': [], 'created': []})
@@ -266,7 +271,7 @@ def assign_setup(eng):
 
     def add_fragment(e, o, fragment, use_hash=True):
         # Molecule.add_fragment contract at distance 0: accepted iff same key; OverflowError only for an accepted fragment
-        same = KEY(o.attrs['idx'].z) == fkey.z
+        same = KEY(o.attrs['idx'].z) == fkey.z if exact else fresh(BOOL, 'accepts').z
         if e.branch(same):
             if e.branch(fresh(BOOL, 'overflow').z):
                 e.spec_env['OVERFLOWED'] = True
@@ -285,46 +290,70 @@ def assign_setup(eng):
     eng.spec_env['NEWMOL'] = Builtin('molecule_class', new_molecule)
 
 
-def it_self(eng, name):
-    from pyvc.symlist import SymList
-    mols = SymList.fresh((INT,), None, 'molecules', eng=eng, wrap=lambda v: Obj('MolRef', {'idx': v}), unwrap=lambda o: o.attrs['idx'])
-    eng.spec_env['MOLS0'] = mols.vc_snapshot()
-    frag_ = Obj('FragStub', {'match_hash': 'mh'})
-    frag_.vc_immutable = True
-    eng.spec_env['FRAGMENT'] = frag_
-    return Obj('MoleculeIterator', {'pooling_method': 0, 'molecules': mols, 'molecule_class': eng.spec_env['NEWMOL'],
-                                    'molecule_class_args': {}, 'yield_overflow': named(BOOL, 'yield_overflow'),
-                                    'deleted_fragments': named(INT, 'deleted'), 'perform_allele_clustering': False},
-               info=eng.loader.classref(FI, 'MoleculeIterator'))
+def it_self_for(pooling):
+    def it_self(eng, name):
+        from pyvc.symlist import SymList
+        mols = SymList.fresh((INT,), None, 'molecules', eng=eng, wrap=lambda v: Obj('MolRef', {'idx': v}), unwrap=lambda o: o.attrs['idx'])
+        eng.spec_env['MOLS0'] = mols.vc_snapshot()
+        eng.spec_env['MOLS'] = mols
+        frag_ = Obj('FragStub', {'match_hash': 'mh'})
+        frag_.vc_immutable = True
+        eng.spec_env['FRAGMENT'] = frag_
+        attrs = {'pooling_method': pooling, 'molecule_class': eng.spec_env['NEWMOL'],
+                 'molecule_class_args': {}, 'yield_overflow': named(BOOL, 'yield_overflow'),
+                 'deleted_fragments': named(INT, 'deleted'), 'perform_allele_clustering': False}
+        if pooling == 0:
+            attrs['molecules'] = mols
+        else:
+            # the bucket of the fragment's (cell, strand, ...) hash; other buckets are not touched by the block
+            attrs['molecules_per_cell'] = {'mh': mols}
+        return Obj('MoleculeIterator', attrs, info=eng.loader.classref(FI, 'MoleculeIterator'))
+    return it_self
 
 
 DISTINCT = 'forall((i, j), implies(0 <= i and i < j and j < len({L}), KEY({L}[i].idx) != KEY({L}[j].idx)))'
-assign = Contract(
-    PROP, FI + '::MoleculeIterator.__iter__', name='MoleculeIterator.assign_fragment[pooling_method=0, exact UMIs]',
-    block=assign_block,
-    params={'self': it_self, 'fragment': lambda e, n: e.spec_env['FRAGMENT']},
-    setup=assign_setup,
-    requires=[DISTINCT.format(L='self.molecules')],
-    yields='checks-only',
-    loops={0: LoopSpec(
-        k='k',
-        inv={'not_found_yet': 'added == False',
-             'earlier_molecules_have_other_keys': 'forall(t, implies(0 <= t and t < k, KEY(MOLS0[t].idx) != FKEY))',
-             'nothing_joined_yet': 'len(GHOST["joined"]) == 0'},
-        types={'molecule': 'frame'})},
-    ensures={
-        # the classes stay classes: still pairwise different keys, and the fragment went to the molecule of its key
-        'buffered_molecules_keep_pairwise_different_keys': DISTINCT.format(L='self.molecules'),
-        'fragment_joins_the_molecule_of_its_key_or_founds_it':
-            '(len(GHOST["joined"]) == 1 and KEY(GHOST["joined"][0]) == FKEY and len(GHOST["created"]) == 0) or '
+
+
+def assign_unit(pooling, exact):
+    """exact: UMI distance 0 - add_fragment accepts iff same key (equality contracts above);
+    not exact: any UMI distance - acceptance is an arbitrary relation (not transitive): the fragment must still be placed in
+    exactly one molecule (the molecules are a partition of the fragments)"""
+    ensures = {'fragment_is_placed_in_exactly_one_molecule':
+               'OVERFLOWED or len(GHOST["joined"]) + len(GHOST["created"]) == 1',
+               'a_new_molecule_is_founded_only_if_no_buffered_molecule_accepts':
+               'OVERFLOWED or implies(len(GHOST["created"]) == 1, len(GHOST["joined"]) == 0)',
+               'a_founded_molecule_is_buffered_in_the_bucket_of_the_fragment':
+               'OVERFLOWED or implies(len(GHOST["created"]) == 1, len(MOLS) == len(MOLS0) + 1 and MOLS[len(MOLS0)].idx == GHOST["created"][0])',
+               'buffer_otherwise_unchanged':
+               'forall(t, implies(0 <= t and t < len(MOLS0), MOLS[t].idx == MOLS0[t].idx)) and '
+               'implies(OVERFLOWED or len(GHOST["created"]) == 0, len(MOLS) == len(MOLS0))'}
+    inv = {'not_found_yet': 'added == False', 'nothing_joined_yet': 'len(GHOST["joined"]) == 0'}
+    requires = []
+    if exact:
+        requires = [DISTINCT.format(L='MOLS0')]
+        inv['earlier_molecules_have_other_keys'] = 'forall(t, implies(0 <= t and t < k, KEY(MOLS0[t].idx) != FKEY))'
+        ensures['buffered_molecules_keep_pairwise_different_keys'] = DISTINCT.format(L='MOLS')
+        ensures['fragment_joins_the_molecule_of_its_key_or_founds_it'] = (
+            'OVERFLOWED or (len(GHOST["joined"]) == 1 and KEY(GHOST["joined"][0]) == FKEY and len(GHOST["created"]) == 0) or '
             '(len(GHOST["joined"]) == 0 and len(GHOST["created"]) == 1 and '
-            'forall(t, implies(0 <= t and t < len(MOLS0), KEY(MOLS0[t].idx) != FKEY)))',
-    },
-    raises={},
-    assumptions=['Molecule.add_fragment through its contract at UMI distance 0 (accepts iff same (cell, strand, site, UMI) key); '
-                 'a molecule that has reached max_associated_fragments raises OverflowError: the fragment is then emitted/dropped '
-                 'alone (outside this clause)'],
-)
-assign.ensures['fragment_joins_the_molecule_of_its_key_or_founds_it'] = (
-    'OVERFLOWED or ' + assign.ensures['fragment_joins_the_molecule_of_its_key_or_founds_it'])
-UNITS.append(assign)
+            'forall(t, implies(0 <= t and t < len(MOLS0), KEY(MOLS0[t].idx) != FKEY)))')
+    return Contract(
+        PROP, FI + '::MoleculeIterator.__iter__',
+        name='MoleculeIterator.assign_fragment[pooling_method=%d, %s]' % (pooling, 'exact UMIs' if exact else 'any UMI distance'),
+        block=assign_block,
+        params={'self': it_self_for(pooling), 'fragment': lambda e, n: e.spec_env['FRAGMENT']},
+        setup=assign_setup_for(exact),
+        requires=requires,
+        yields='checks-only',
+        loops={(0 if pooling == 0 else 1): LoopSpec(k='k', inv=inv, types={'molecule': 'frame'})},
+        ensures=ensures,
+        raises={},
+        assumptions=['Molecule.add_fragment through its contract' + (
+            ' at UMI distance 0 (accepts iff same (cell, strand, site, UMI) key)' if exact else
+            ': an arbitrary acceptance relation (UMI distance > 0 is not transitive)') +
+            '; a molecule that has reached max_associated_fragments raises OverflowError: the fragment is then emitted/dropped '
+            'alone (outside this clause)'],
+    )
+
+
+UNITS += [assign_unit(0, True), assign_unit(1, True), assign_unit(0, False), assign_unit(1, False)]
